@@ -923,3 +923,5 @@ MUTANTS = [
                 self.log.debug("disable crc check for type 2 tag")""", """            if sel_res[0] & 0x40 == 0x00:
                 self.log.debug("disable crc check for type 2 tag")""", 'C14-R7'),
 ]
+
+EXPLANATION += ' Round 5: for chipset classes that override write_frame() nothing else in the callee closure of command() writes to the transport (frame envelope).'
